@@ -49,11 +49,32 @@ func (m joinedMap) has(first, second string) bool {
 // script to its second half (sent in the same packet, hence allowed to
 // arrive after a fault on the first half).
 func joinedSecond(sc *Scenario) joinedMap {
+	return joinedFor(sc, sc.Device)
+}
+
+// joinedOf uses the configuration text that the tool really read in a run
+// (its .config log), which may be spelled differently from sc.Device.
+func joinedOf(sc *Scenario, o *Outcome) joinedMap {
+	m := joinedFor(sc, sc.Device)
+	if o == nil {
+		return m
+	}
+	for _, name := range o.FileNames() {
+		if strings.HasSuffix(name, "router.config") && o.Files[name] != "" {
+			for k, l := range joinedFor(sc, o.Files[name]) {
+				m[k] = append(m[k], l...)
+			}
+		}
+	}
+	return m
+}
+
+func joinedFor(sc *Scenario, device string) joinedMap {
 	m := joinedMap{}
 	if sc.Family != "asa" && sc.Family != "ios" {
 		return m
 	}
-	files := tool.Files{"device": sc.Device, "code/router.info": tool.Info(modelName(sc.Family))}
+	files := tool.Files{"device": device, "code/router.info": tool.Info(modelName(sc.Family))}
 	for k, v := range sc.Target {
 		files["code/"+k] = v
 	}
@@ -70,7 +91,14 @@ func joinedSecond(sc *Scenario) joinedMap {
 func linuxJoined(a, b string) bool {
 	fa, fb := strings.Fields(a), strings.Fields(b)
 	return len(fa) >= 4 && len(fb) >= 4 && fa[0] == "ip" && fa[1] == "route" && fa[2] == "del" &&
-		fb[0] == "ip" && fb[1] == "route" && fb[2] == "add" && fa[3] == fb[3]
+		fb[0] == "ip" && fb[1] == "route" && fb[2] == "add" && normDst(fa[3]) == normDst(fb[3])
+}
+
+func normDst(d string) string {
+	if d == "default" {
+		return "0.0.0.0/0"
+	}
+	return d
 }
 
 func lastHistoryLine(h string) string {
@@ -81,7 +109,16 @@ func lastHistoryLine(h string) string {
 // oracleC09: any device-side failure stops the run and is reported
 // truthfully. Params: scenario; "kpos" (position, taken modulo the length
 // of a clean run) and "kind".
-func oracleC09(c *props.Case) props.Verdict {
+func oracleC09(c *props.Case) (verdict props.Verdict) {
+	// Known finding F41: Linux sends "ip route del ..." and "ip route add ..."
+	// in one packet and asks for the exit status once, so a first command
+	// that fails without any output goes unnoticed.
+	f41 := false
+	defer func() {
+		if f41 && verdict.Status == props.Fail {
+			verdict.Sig = "linux:F41-exit-status-of-first-joined-command-not-checked"
+		}
+	}()
 	sc, err := ScenarioOf(c)
 	if err != nil {
 		return props.DiscardV("bad scenario")
@@ -108,25 +145,72 @@ func oracleC09(c *props.Case) props.Verdict {
 	}
 	n := len(oc.Lines)
 	pos := kpos % n
+	// "target" concentrates the fault on one kind of step of the clean run:
+	// any change, the first / second half of a two-command packet, the save.
+	if tgt := c.Params["target"]; tgt != "" {
+		jm := joinedOf(sc, oc)
+		var cand []int
+		for i, l := range oc.Lines {
+			switch tgt {
+			case "change":
+				if l.Class == "change" {
+					cand = append(cand, i)
+				}
+			case "save":
+				if l.Class == "save" {
+					cand = append(cand, i)
+				}
+			case "joined1":
+				if l.Class == "change" && i+1 < n && (jm.has(l.Text, oc.Lines[i+1].Text) || linuxJoined(l.Text, oc.Lines[i+1].Text)) {
+					cand = append(cand, i)
+				}
+			case "joined2":
+				if l.Class == "change" && i > 0 && (jm.has(oc.Lines[i-1].Text, l.Text) || linuxJoined(oc.Lines[i-1].Text, l.Text)) {
+					cand = append(cand, i)
+				}
+			}
+		}
+		if len(cand) == 0 && (tgt == "joined1" || tgt == "joined2") {
+			tgt = "change"
+			for i, l := range oc.Lines {
+				if l.Class == "change" {
+					cand = append(cand, i)
+				}
+			}
+		}
+		if len(cand) > 0 {
+			pos = cand[kpos%len(cand)]
+			classes = append(classes, "c09:target:"+tgt)
+		}
+	}
 	sc.Faults = []FaultSpec{{Pos: oc.Lines[pos].N, Kind: kind}}
 	o := Execute(sc)
 	if o.Harness != nil {
 		return props.DiscardV("harness")
 	}
 	if o.FaultAt < 0 {
-		return props.DiscardV("fault-not-reached")
+		return props.Verdict{Status: props.Discard, Reason: "fault-not-reached", Classes: append(classes, "c09:not-reached:"+sc.Family+":"+oc.Lines[pos].Class+":"+kind)}
 	}
 	fl := o.Lines[o.FaultAt]
+	// The dialogue is deterministic up to the fault: the faulted step is
+	// the step of the clean run at the same position, where its role
+	// (change, save, ...) is known from the device's answer.
+	if o.FaultAt < len(oc.Lines) && oc.Lines[o.FaultAt].Text == fl.Text {
+		fl.Class = oc.Lines[o.FaultAt].Class
+	}
 	classes = append(classes, "c09:kind:"+kind, "c09:phase:"+fl.Class)
 	// Faults without an observable effect are no faults.
-	if kind == "badecho" && (fl.Class == "login" || len(fl.Text) <= 1) {
-		return props.DiscardV("fault-without-effect")
+	// The save step and the arming of the reload are verified through the
+	// device's confirmation ([OK], [confirm]), which a garbled echo line in
+	// front of it does not take away.
+	if kind == "badecho" && (fl.Class == "login" || fl.Class == "save" || fl.Class == "reload-arm" || len(fl.Text) <= 1) {
+		return props.Verdict{Status: props.Discard, Reason: "fault-without-effect", Classes: classes}
 	}
 	if kind == "commit-fail" && fl.Class != "save" && fl.Class != "poll" {
-		return props.DiscardV("fault-without-effect")
+		return props.Verdict{Status: props.Discard, Reason: "fault-without-effect", Classes: classes}
 	}
 	if kind == "status" && fl.Class != "change" && fl.Class != "save" {
-		return props.DiscardV("fault-without-effect")
+		return props.Verdict{Status: props.Discard, Reason: "fault-without-effect", Classes: classes}
 	}
 	// NSX reports the outcome of a modifying request through the HTTP
 	// status alone; a 200 answer with an unexpected body is not a failure
@@ -147,10 +231,11 @@ func oracleC09(c *props.Case) props.Verdict {
 	if !strictStep(sc.Family, fl) {
 		return props.Verdict{Status: props.Discard, Reason: "fault-on-freeform-step", Classes: classes}
 	}
+	f41 = sc.Family == "linux" && kind == "status" && o.FaultAt+1 < len(o.Lines) && linuxJoined(fl.Text, o.Lines[o.FaultAt+1].Text)
 	if v := checkOK(sc, o); v != nil {
 		return *v
 	}
-	joined := joinedSecond(sc)
+	joined := joinedOf(sc, oc)
 	sigBase := sc.Family + ":after-" + kind + "-at-" + fl.Class
 	for i := o.FaultAt + 1; i < len(o.Lines); i++ {
 		l := o.Lines[i]
@@ -215,7 +300,7 @@ func checkOK(sc *Scenario, o *Outcome) *props.Verdict {
 			continue
 		}
 		if strings.HasPrefix(l.Res, "fault:") && strictStep(sc.Family, l) &&
-			!(l.Res == "fault:badecho" && (l.Class == "login" || len(l.Text) <= 1)) {
+			!(l.Res == "fault:badecho" && (l.Class == "login" || l.Class == "save" || l.Class == "reload-arm" || len(l.Text) <= 1)) {
 			v := props.FailV(sc.Family+":ok-despite-fault", "status OK although %q was answered with %s\n%s", l.Text, l.Res, o.Summary())
 			return &v
 		}
